@@ -1193,16 +1193,33 @@ impl NodeId {
         self.detach(arena);
 
         // use a preorder traversal to remove node.
+        // The links of a freed node are cleared as soon as the walk no longer
+        // needs them, so that removed nodes do not keep pointing into the tree.
         let mut cursor = Some(self);
         while let Some(id) = cursor {
             arena.free_node(id);
-            let node = &arena[id];
-            cursor = node.first_child.or(node.next_sibling).or_else(|| {
-                id.ancestors(arena) // traverse ancestors upwards
-                    .skip(1) // skip the starting node itself
-                    .find(|n| arena[*n].next_sibling.is_some()) // first ancestor with a sibling
-                    .and_then(|n| arena[n].next_sibling) // the sibling is the new cursor
-            });
+            let node = &mut arena[id];
+            node.previous_sibling = None;
+            node.last_child = None;
+            cursor = match node.first_child.take() {
+                // descend; `parent` and `next_sibling` are still needed to come back
+                Some(first_child) => Some(first_child),
+                // subtree of `id` done: go to the next sibling of the closest
+                // ancestor-or-self that has one
+                None => {
+                    let mut finished = id;
+                    loop {
+                        let node = &mut arena[finished];
+                        let next_sibling = node.next_sibling.take();
+                        let parent = node.parent.take();
+                        match (next_sibling, parent) {
+                            (Some(next_sibling), _) => break Some(next_sibling),
+                            (None, Some(parent)) => finished = parent,
+                            (None, None) => break None,
+                        }
+                    }
+                }
+            };
         }
     }
 
